@@ -451,9 +451,14 @@ public:
         if (hasDataFrame(name)) {
             throw DuplicateName("create DataFrame");
         }
+        // a frame needs at least one column, and every column a type that can be stored:
+        // checked here, before the backend creates anything
+        if (cols.empty()) {
+            throw std::invalid_argument("Block::createDataFrame: at least one column is required!");
+        }
         std::set<std::string> names;
         for (const Column &c : cols) {
-            if (!Variant::supports_type(c.dtype)) {
+            if (c.dtype == DataType::Nothing || !Variant::supports_type(c.dtype)) {
                 std::string msg = "Incompatible DataType for column ";
                 throw std::invalid_argument(msg + c.name);
             }
